@@ -359,14 +359,14 @@ func ruleOperatorTokens(c *core.Ctx) {
 		x := &gee.Extractor{Info: p.TypesInfo, Fset: c.Fset}
 		rows := x.Extract(em.fn, d)
 		got := map[string]map[string]string{} // op -> guardclass -> token
-		defer func(name string, pos token.Pos) {
+		recordIntDiv := func() {
 			if t, ok := got["BinaryOpDiv"]["int"]; ok {
-				intDivToken[name] = t
+				intDivToken[em.name] = t
 			} else if t, ok := got["BinaryOpDiv"]["any"]; ok {
-				intDivToken[name] = t
+				intDivToken[em.name] = t
 			}
-			intDivPos = pos
-		}(em.name, d.Pos())
+			intDivPos = d.Pos()
+		}
 		for _, r := range rows {
 			if r.Kind != "emit" {
 				continue
@@ -399,6 +399,7 @@ func ruleOperatorTokens(c *core.Ctx) {
 				got[op][cls] = r.Tmpl
 			}
 		}
+		recordIntDiv()
 		for op, want := range ref[em.name] {
 			key := em.name + "/" + op
 			switch w := want.(type) {
@@ -413,6 +414,36 @@ func ruleOperatorTokens(c *core.Ctx) {
 				}
 			}
 		}
+	}
+	// X6: same rounding of integer division everywhere
+	sem, _ := raw["integer_division_semantics"].(map[string]any)
+	var parts []string
+	distinct := map[string]bool{}
+	undecided := false
+	for _, em := range exprEmitters {
+		tok := intDivToken[em.name]
+		m, _ := sem[em.name].(map[string]any)
+		what, ok := m[tok].(string)
+		if !ok {
+			undecided = true
+			parts = append(parts, fmt.Sprintf("%s `%s`: semantics not in the reference table", em.name, tok))
+			continue
+		}
+		cls := what
+		if i := strings.Index(what, " ("); i > 0 {
+			cls = what[:i]
+		}
+		distinct[cls] = true
+		parts = append(parts, fmt.Sprintf("%s `%s` %s", em.name, tok, what))
+	}
+	sort.Strings(parts)
+	switch {
+	case undecided || len(sem) == 0:
+		c.Undecided("X6", "BinaryOpDiv/int", intDivPos, strings.Join(parts, "; "))
+	case len(distinct) == 1:
+		c.OK("X6", "BinaryOpDiv/int", intDivPos, strings.Join(parts, "; "))
+	default:
+		c.Bad("X6", "BinaryOpDiv/int", intDivPos, "an integer-typed `a / b` in a computed field is rounded differently per target language: "+strings.Join(parts, "; "))
 	}
 }
 
